@@ -781,7 +781,96 @@ fn racing() -> BoxedStrategy<Racing> {
         .boxed()
 }
 
+// ------------------------------------- broadcasts through the WebSocket server's sinks
+
+/// The same "exactly one notify with the given path, body and format per present
+/// peer" clause, with the registry fed by a real WebSocket server (its own peer
+/// sinks) instead of the harness's recording sinks: what each raw client receives.
+#[derive(Debug, Clone, Serialize, Deserialize, Hash, PartialEq, Eq)]
+pub struct WsFormat {
+    pub peers: u8,
+    pub seed: u64,
+}
+
+pub fn check_ws_format(c: &WsFormat) -> CheckResult {
+    use crate::peers::net::FrameIo;
+    use repe::{NotifyBody, Router, WebSocketServer};
+    let registry = PeerRegistry::new();
+    let shared = WebSocketServer::new(Router::new().with_json("/ping", |_v: Value| Ok(serde_json::json!("pong"))))
+        .with_peer_registry(registry.clone())
+        .on_error(|_e| {})
+        .into_shared();
+    let n = c.peers.clamp(1, 4) as usize;
+    let body = crate::gens::fill(5 + (c.seed % 200) as usize, c.seed);
+    crate::util::block_on_mt(async {
+        let mut ios = Vec::new();
+        for _ in 0..n {
+            let conn = crate::peers::dws::connect(&shared, 1 << 16).await;
+            let mut io = conn.io;
+            // a round trip, so the peer is certainly registered
+            io.send(&crate::peers::net::frame_with(1, 0, b"/ping", 1, b"null", 2, 0)).await.map_err(|e| Fail::new("harness-send", e.to_string()))?;
+            match tokio::time::timeout(std::time::Duration::from_secs(10), io.recv()).await {
+                Ok(Ok(Some(_))) => {}
+                _ => return Err(Fail::new("harness-connect", "ping on a fresh connection was not answered")),
+            }
+            ios.push(io);
+        }
+        ensure!(registry.len() == n, "registry-size", "{} peers registered for {n} connections", registry.len());
+        // (what is sent, the format the client must see)
+        let formats = [BodyFormat::RawBinary, BodyFormat::Beve, BodyFormat::Json, BodyFormat::Utf8];
+        let mut expected: Vec<(String, u16, Vec<u8>)> = Vec::new();
+        for (i, f) in formats.iter().enumerate() {
+            let path = format!("/bcast/raw/{i}");
+            let res = registry.broadcast_notify_raw(&path, *f, &body);
+            ensure!(res.len() == n && res.values().all(|r| r.is_ok()), "broadcast-results", "broadcast to {n} live peers reported {:?}", res.values().collect::<Vec<_>>());
+            expected.push((path, *f as u16, body.clone()));
+        }
+        let text = "t".repeat(3 + (c.seed % 40) as usize);
+        let res = registry.broadcast_notify_utf8("/bcast/utf8", &text);
+        ensure!(res.len() == n && res.values().all(|r| r.is_ok()), "broadcast-results", "utf8 broadcast reported {:?}", res.values().collect::<Vec<_>>());
+        expected.push(("/bcast/utf8".into(), BodyFormat::Utf8 as u16, text.clone().into_bytes()));
+        let val = serde_json::json!({"seed": c.seed});
+        let res = registry.broadcast_notify_json("/bcast/json", &val).map_err(|e| Fail::new("broadcast-results", e.to_string()))?;
+        ensure!(res.len() == n && res.values().all(|r| r.is_ok()), "broadcast-results", "json broadcast reported {:?}", res.values().collect::<Vec<_>>());
+        expected.push(("/bcast/json".into(), BodyFormat::Json as u16, serde_json::to_vec(&val).unwrap()));
+        // direct pushes through each handle, every tagged variant
+        for p in registry.peers() {
+            for (i, f) in formats.iter().enumerate() {
+                p.send_notify(&format!("/push/raw/{i}"), NotifyBody::Raw(body.clone(), *f)).map_err(|e| Fail::new("push-refused", e.to_string()))?;
+            }
+        }
+        for (i, f) in formats.iter().enumerate() {
+            expected.push((format!("/push/raw/{i}"), *f as u16, body.clone()));
+        }
+        for (k, io) in ios.iter_mut().enumerate() {
+            for (path, fmt, bytes) in &expected {
+                let f = match tokio::time::timeout(std::time::Duration::from_secs(10), io.recv()).await {
+                    Ok(Ok(Some(f))) => f,
+                    other => {
+                        let got = other.map(|r| r.map(|o| o.map(|f| f.path())));
+                        return Err(Fail::new("broadcast-missing", format!("peer {k}: expected the notify {path}, got {got:?}")));
+                    }
+                };
+                ensure!(
+                    f.header.notify == 1 && f.path() == *path && f.body == *bytes && f.header.body_format == *fmt && f.header.query_format == 1,
+                    "broadcast-frame-differs",
+                    "peer {k}: notify {path} sent with body format {fmt} arrived as path {:?} notify {} body_format {} query_format {} ({} body bytes, {} expected)",
+                    f.path(),
+                    f.header.notify,
+                    f.header.body_format,
+                    f.header.query_format,
+                    f.body.len(),
+                    bytes.len()
+                );
+            }
+        }
+        Ok(CaseInfo::new(n >= 2).class(format!("ws-peers={n}")))
+    })
+}
+
 pub fn run(ctx: &Ctx, rep: &Report) {
+    let wf: Vec<WsFormat> = (1..=4u8).flat_map(|peers| [1u64, 77, 4242].into_iter().map(move |seed| WsFormat { peers, seed })).collect();
+    run_enum(ctx, rep, "ws-format", &wf, false, &check_ws_format);
     run_prop(ctx, rep, "broadcast-reentrant", ctx.tier.pick(20_000, 1_000_000), &|| reentrant(), &check_reentrant);
     run_prop(ctx, rep, "broadcast-racing", ctx.tier.pick(3_000, 150_000), &|| racing(), &check_racing);
     run_exhaustive(ctx, rep, ctx.tier.pick(5, 6));
@@ -793,6 +882,7 @@ pub fn replay(sub: &str, case: &Value) -> Result<(), Fail> {
     match sub {
         "exhaustive" | "random" => replay_case::<Hist>(case, &check_hist),
         "concurrent" => replay_case::<Conc>(case, &check_conc),
+        "ws-format" => replay_case::<WsFormat>(case, &check_ws_format),
         "broadcast-reentrant" => replay_case::<Reentrant>(case, &check_reentrant),
         "broadcast-racing" => replay_case::<Racing>(case, &check_racing),
         _ => Err(Fail::new("replay-unknown-sub", sub.to_string())),
